@@ -58,3 +58,69 @@ def gen_CollectCatchErrorHandlers(rng):
         for n in names:
             steps[n] = rand_cfg(rng, names, rng.random() < 0.4)
     return dict(steps=steps)
+
+
+# ------------------------------------------------------------------ event connectivity
+from workflows.events import Event, HumanResponseEvent, InputRequiredEvent, StartEvent, StepFailedEvent  # noqa: E402
+
+
+class EvA(Event):
+    pass
+
+
+class EvB(Event):
+    pass
+
+
+class EvC(Event):
+    pass
+
+
+class MyStart(StartEvent):
+    pass
+
+
+class MyStop(StopEvent):
+    pass
+
+
+class MyInput(InputRequiredEvent):
+    pass
+
+
+class MyReply(HumanResponseEvent):
+    pass
+
+
+EV_POOL = [EvA, EvB, EvC, MyStop, StopEvent, MyInput, InputRequiredEvent, MyReply, HumanResponseEvent, StepFailedEvent]
+
+
+def gen_ValidateEventConnectivity(rng):
+    start = rng.choice([StartEvent, MyStart])
+    names = rng.sample(NAMES, rng.randrange(1, 4))
+    steps = {}
+    if rng.random() < 0.6:
+        # a connected chain start -> EvA -> EvB -> ... -> stop, with optional human-in-the-loop legs
+        chain = [start] + rng.sample([EvA, EvB, EvC], len(names) - 1) + [rng.choice([StopEvent, MyStop])]
+        for i, n in enumerate(names):
+            acc, ret = [chain[i]], [chain[i + 1]]
+            if rng.random() < 0.3:
+                ret.append(rng.choice([MyInput, InputRequiredEvent]))
+            if rng.random() < 0.3:
+                acc.append(rng.choice([MyReply, HumanResponseEvent]))
+            if rng.random() < 0.2:
+                ret.append(type(None))
+            steps[n] = StepConfig(accepted_events=acc, event_name="ev", return_types=ret, context_parameter=None,
+                                  num_workers=1, retry_policy=None, resources=[])
+    else:
+        for n in names:
+            steps[n] = StepConfig(accepted_events=rng.sample([start] + EV_POOL, rng.randrange(1, 3)), event_name="ev",
+                                  return_types=rng.sample(EV_POOL + [type(None)], rng.randrange(1, 3)),
+                                  context_parameter=None, num_workers=1, retry_policy=None, resources=[])
+    return dict(steps=steps, start_event_class=start)
+
+
+from pyvc.dsl import UNIVERSE  # noqa: E402
+
+# every class a generated configuration can mention: natively, quantifiers over `type` range over this universe
+UNIVERSE["type"] = [StartEvent, MyStart] + EV_POOL + [type(None)]
